@@ -382,11 +382,13 @@ Definition row_type (r : mrows) (row : string) : rty :=
   if smem row (r_eq r) then RE else if smem row (r_ge r) then RG
   else if smem row (r_le r) then RL else RN.
 
-Fixpoint fresh_row_name (fuel : nat) (a : list (string * list (string * num))) (cand : string)
-  : string :=
+(* the name of the generated row: underscores are appended until the candidate is neither a key
+   of [a] nor the objective row's name (whose RHS entry holds the objective constant) *)
+Fixpoint fresh_row_name (fuel : nat) (a : list (string * list (string * num))) (obj : string)
+  (cand : string) : string :=
   match fuel with
   | O => cand
-  | S f => if has_key cand a then fresh_row_name f a (cand +++ "_") else cand
+  | S f => if has_key cand a || (cand =? obj) then fresh_row_name f a obj (cand +++ "_") else cand
   end.
 
 Definition set_type (name : string) (ty : rty) (r : mrows) (a' : list (string * list (string * num)))
@@ -401,7 +403,7 @@ Definition add_range (m : mps) (rv : string * num) : res mps :=
   if qeqb rg 0 then Err (EPanic "RANGES with 0.0 is not supported")
   else
     let r := m_rows m in
-    let new := fresh_row_name (S (List.length (r_a r))) (r_a r) (row +++ "_") in
+    let new := fresh_row_name (S (S (List.length (r_a r)))) (r_a r) (m_obj m) (row +++ "_") in
     match lookup row (r_a r) with
     | None => Err (EUnknownRowName row)
     | Some entries =>
